@@ -26,6 +26,14 @@ import (
 type c18UF struct {
 	u, s bool
 	grp  types.Object // the variable whose entries this one shares after `a = b` (nil: its own)
+	errv types.Object // the facts hold only where this error variable is nil (`v, err := load()`); nil: unconditional
+}
+
+// c18Ret is what a package function returns: the facts of the slice result over its value returns, and whether
+// it also has error returns (`return nil, err`), which the caller must rule out by testing the error.
+type c18Ret struct {
+	uf      c18UF
+	errPath bool
 }
 
 // c18Grp is the share group of v: slices assigned from one another share their entries, so sorting the lists
@@ -85,6 +93,14 @@ func (a c18Flow) meet(b c18Flow) c18Flow {
 		m := c18UF{u: v.u && w.u, s: v.s && w.s}
 		if v.grp == w.grp {
 			m.grp = v.grp
+		}
+		switch {
+		case v.errv == w.errv || w.errv == nil:
+			m.errv = v.errv
+		case v.errv == nil:
+			m.errv = w.errv
+		default:
+			m.u, m.s = false, false // conditional on two different errors
 		}
 		n.f[k] = m
 	}
